@@ -1988,3 +1988,63 @@ pub fn mix(rng: &mut Rng) -> Program {
     g.gen_clients(&w, &Shape { clients: (1, 3), ops: (2, 9), final_wait_pct: 50 });
     g.prog
 }
+
+/// family "droprace": the last strong handle is dropped by one client while another upgrades a weak handle, both
+/// released from a rendezvous at (nearly) the same instant - on L2 that is a race of real threads
+pub fn droprace(rng: &mut Rng) -> Program {
+    let mut g = G::new(rng);
+    let mut a = ActorDecl::plain(1);
+    a.mailbox = mailbox_kind(g.rng);
+    a.entry = *g.rng.pick(&[Entry::Spawn, Entry::Builder]);
+    a.holders = vec![0, 1];
+    if g.rng.chance(1, 4) {
+        a.stopped = vec![SStep::Sleep(1)];
+    }
+    g.prog.actors.push(a);
+    g.layout(2);
+    let j0 = g.rng.range(0, 300) as u16;
+    let j1 = g.rng.range(0, 300) as u16;
+    // client 1 keeps only a weak handle (slot 2) ...
+    let weak_kind = g.rng.below(3);
+    g.prog.clients[1].push(match weak_kind {
+        0 => Op::Downgrade { slot: 0 },
+        1 => Op::ToWeakSender { slot: 0 },
+        _ => Op::ToWeakCaller { slot: 0 },
+    });
+    g.prog.clients[1].push(Op::Drop { slot: 0 });
+    // ... client 0 holds the last strong handle, of any kind (slot 0, or a converted one in slot 2)
+    let strong_kind = g.rng.below(3);
+    let last = match strong_kind {
+        0 => 0u16,
+        1 => {
+            g.prog.clients[0].push(Op::ToSender { slot: 0 });
+            g.prog.clients[0].push(Op::Drop { slot: 0 });
+            2
+        }
+        _ => {
+            g.prog.clients[0].push(Op::ToCaller { slot: 0 });
+            g.prog.clients[0].push(Op::Drop { slot: 0 });
+            2
+        }
+    };
+    if g.rng.chance(1, 3) {
+        g.prog.clients[0].push(Op::Send { slot: last, script: vec![PStep::Sleep(1)], cancel: None });
+    }
+    g.prog.clients[0].push(Op::Rendezvous { id: 0, parties: 2, jitter: j0 });
+    g.prog.clients[0].push(Op::Drop { slot: last });
+    g.prog.clients[1].push(Op::Rendezvous { id: 0, parties: 2, jitter: j1 });
+    g.prog.clients[1].push(Op::Upgrade { slot: 2 });
+    // whatever the upgrade returned is used, held for a while and dropped (a failed upgrade leaves an empty slot)
+    g.prog.clients[1].push(match weak_kind {
+        1 => Op::Send { slot: 3, script: vec![], cancel: None },
+        _ => Op::Call { slot: 3, script: vec![], cancel: None },
+    });
+    g.prog.clients[1].push(Op::Sleep(g.rng.range(1, 3)));
+    g.prog.clients[1].push(match weak_kind {
+        1 => Op::Send { slot: 3, script: vec![], cancel: None },
+        _ => Op::Call { slot: 3, script: vec![], cancel: None },
+    });
+    g.prog.clients[1].push(Op::Drop { slot: 3 });
+    g.prog.clients[1].push(Op::Upgrade { slot: 2 });
+    g.prog
+}
